@@ -3956,3 +3956,141 @@ twin('C02-twin-norm-by-linalg', 'C02',
      'norm of the centred rows computed with np.linalg.norm',
      [(_DU, "    norm = np.sqrt(np.sum(data**2, axis=0))\n",
        "    norm = np.linalg.norm(data, axis=0)\n")])
+
+# ----------------------------------------------------------------------
+# round 10
+# ----------------------------------------------------------------------
+_C2C = P+'utils/csc_to_csr.py'
+_H5U = P+'utils/h5_utils.py'
+twin('C01-twin-no-runners-up-fast-path', 'C01',
+     'fast path for zero runners-up that returns one empty list per cell',
+     [(_EL, "    runners_up = [\n"
+       "        [(reference_types[sorted_by_votes[i_row, i_col]],\n",
+       "    if n_assignments == 1:\n"
+       "        return (np.array(result),\n"
+       "                vote_fractions[:, 0],\n"
+       "                avg_corr[:, 0],\n"
+       "                [[] for i_row in range(len(result))])\n"
+       "    runners_up = [\n"
+       "        [(reference_types[sorted_by_votes[i_row, i_col]],\n")])
+twin('C11-twin-batch-within-budget', 'C11',
+     'batch search that stays within the budget but always takes at '
+     'least one row',
+     [(_C2C, "            if e1-e0 >= elements_at_a_time or candidate == "
+       "len(csr_indptr)-1:\n"
+       "                r1 = candidate\n"
+       "                break\n",
+       "            if e1-e0 > elements_at_a_time and r1 is not None:\n"
+       "                break\n"
+       "            r1 = candidate\n")])
+mutant('C13-batch-search-gives-up', 'C13',
+       'batch search of the transposition breaks at the first row that '
+       'exceeds the budget',
+       [(_C2C, "            if e1-e0 >= elements_at_a_time or candidate == "
+         "len(csr_indptr)-1:\n"
+         "                r1 = candidate\n"
+         "                break\n",
+         "            if e1-e0 > 2*elements_at_a_time:\n"
+         "                break\n"
+         "            if e1-e0 >= elements_at_a_time or candidate == "
+         "len(csr_indptr)-1:\n"
+         "                r1 = candidate\n"
+         "                break\n")],
+       'R-COVER/batch-search', 'transpose_sparse_matrix_on_disk')
+twin('C16-twin-copy-skips-by-key', 'C16',
+     'block copy that skips blocks by position, not by content',
+     [(_H5U, "                for this_chunk in itertools.product("
+       "*copy_slices):\n"
+       "                    dst_dataset[this_chunk] = "
+       "src_dataset[this_chunk]\n",
+       "                for this_chunk in itertools.product("
+       "*copy_slices):\n"
+       "                    if this_chunk is None:\n"
+       "                        continue\n"
+       "                    dst_dataset[this_chunk] = "
+       "src_dataset[this_chunk]\n")])
+mutant('C16-copy-skips-empty-looking-blocks', 'C16',
+       'block copy skips blocks whose sum is zero',
+       [(_H5U, "                for this_chunk in itertools.product("
+         "*copy_slices):\n"
+         "                    dst_dataset[this_chunk] = "
+         "src_dataset[this_chunk]\n",
+         "                for this_chunk in itertools.product("
+         "*copy_slices):\n"
+         "                    if src_dataset[this_chunk].sum() == 0:\n"
+         "                        continue\n"
+         "                    dst_dataset[this_chunk] = "
+         "src_dataset[this_chunk]\n")],
+       'R-COVER/copy-not-filtered-by-content', '_copy_h5_element')
+mutant('C15-config-edited-in-inner-run', 'C15',
+       '_run_mapping writes a derived setting back into the live config',
+       [(_FSM, "    type_assignment_config = config[\"type_assignment\"]\n",
+         "    type_assignment_config = config[\"type_assignment\"]\n"
+         "    if type_assignment_config['bootstrap_factor'] >= 1.0:\n"
+         "        type_assignment_config['bootstrap_iteration'] = 1\n")],
+       'R-SAMEVAL/config-as-recorded', '_run_mapping')
+twin('C15-twin-config-read-into-local', 'C15',
+     'a setting is read into a local and the local is adjusted',
+     [(_FSM, "    type_assignment_config = config[\"type_assignment\"]\n",
+       "    type_assignment_config = config[\"type_assignment\"]\n"
+       "    n_iter_local = type_assignment_config['bootstrap_iteration']\n"
+       "    n_iter_local = max(1, n_iter_local)\n")])
+mutant('C19-makedirs-under-tmp-dir', 'C19',
+       'the file tracker creates a fixed sub-directory under tmp_dir',
+       [(P+'utils/utils.py', "def mkstemp_clean(\n",
+         "def _ensure_scratch(tmp_dir):\n"
+         "    import os\n"
+         "    os.makedirs(str(tmp_dir) + '/staging', exist_ok=True)\n"
+         "\n\ndef mkstemp_clean(\n")],
+       'R-FRESH/directories-only-by-mkdtemp', '_ensure_scratch')
+mutant('C20-handle-name-after-colon', 'C20',
+       'an error message quotes the name of an open file handle after a '
+       'colon',
+       [(_FSM, "    marker_lookup = json.load(open(marker_lookup_path, "
+         "'rb'))\n",
+         "    with open(marker_lookup_path, 'rb') as lookup_src:\n"
+         "        marker_lookup = json.load(lookup_src)\n"
+         "        if len(marker_lookup) == 0:\n"
+         "            raise RuntimeError(\n"
+         "                f\"empty marker lookup:{lookup_src.name}\")\n")],
+       'R-ROLE/path-in-message', '_run_mapping')
+twin('C20-twin-handle-name-as-a-word', 'C20',
+     'an error message quotes the name of an open file handle as a word '
+     'of its own',
+     [(_FSM, "    marker_lookup = json.load(open(marker_lookup_path, "
+       "'rb'))\n",
+       "    with open(marker_lookup_path, 'rb') as lookup_src:\n"
+       "        marker_lookup = json.load(lookup_src)\n"
+       "        if len(marker_lookup) == 0:\n"
+       "            raise RuntimeError(\n"
+       "                f\"empty marker lookup: {lookup_src.name}\")\n")])
+twin('C07-twin-chunk-capped-by-rows', 'C07',
+     'row chunk size capped by the number of rows of the file',
+     [(_AI, "        if encoding_type.startswith('csr') and array_shape "
+       "is not None:\n            self._iterator_type = 'CSRRow'\n",
+       "        if array_shape is not None:\n"
+       "            row_chunk_size = max(\n"
+       "                1, min(row_chunk_size, int(array_shape[0])))\n"
+       "        if encoding_type.startswith('csr') and array_shape "
+       "is not None:\n            self._iterator_type = 'CSRRow'\n")])
+mutant('C07-chunk-capped-by-dense-columns', 'C07',
+       'dense row chunks capped by the number of columns of the dataset',
+       [(_AI, "            self.n_rows = array_shape[0]\n"
+         "            self._chunk_iterator = DenseArrayRowIterator(\n"
+         "                  h5_path=h5ad_path,\n"
+         "                  row_chunk_size=row_chunk_size,\n",
+         "            self.n_rows = array_shape[0]\n"
+         "            self._chunk_iterator = DenseArrayRowIterator(\n"
+         "                  h5_path=h5ad_path,\n"
+         "                  row_chunk_size=max(\n"
+         "                      1, min(row_chunk_size,\n"
+         "                             10**8//max(1, array_shape[1]))),\n")],
+       'R-PROV/chunking-independent-of-genes', 'AnnDataRowIterator')
+mutant('C06-backfill-memo-by-child', 'C06',
+       'back-filled records memoised per child node',
+       [(_TT, "                new_data['directly_assigned'] = False\n",
+         "                new_data['directly_assigned'] = False\n"
+         "                if this_child not in self._bf_cache:\n"
+         "                    self._bf_cache[this_child] = new_data\n"
+         "                new_data = self._bf_cache[this_child]\n")],
+       'R-MEMO/key-complete', 'backfill_assignments')
